@@ -19,6 +19,7 @@ import (
 	"context"
 	"fmt"
 	"strconv"
+	"sync"
 	"sync/atomic"
 	"time"
 
@@ -198,6 +199,7 @@ type ChunkReader struct {
 	transColumnFun      *map[influxql.DataType]func(recColumn *record.ColVal, column executor.Column)
 
 	closed       chan struct{}
+	closedMu     sync.RWMutex // guards closedSignal: Close/Abort run on another goroutine than Work
 	closedSignal bool
 
 	span       *tracing.Span
@@ -865,7 +867,10 @@ func (r *ChunkReader) sendChunk(chunk executor.Chunk) {
 			r.closed <- struct{}{}
 		}
 	}()
-	if !r.closedSignal {
+	r.closedMu.RLock()
+	closedSignal := r.closedSignal
+	r.closedMu.RUnlock()
+	if !closedSignal {
 		statistics.ExecutorStat.SourceRows.Push(int64(chunk.NumberOfRows()))
 		r.Output.State <- chunk
 	} else {
@@ -879,7 +884,9 @@ func (r *ChunkReader) IsSink() bool {
 
 func (r *ChunkReader) Close() {
 	r.Once(func() {
+		r.closedMu.Lock()
 		r.closedSignal = true
+		r.closedMu.Unlock()
 		r.Output.Close()
 	})
 }
